@@ -113,8 +113,16 @@ pub fn eval1<T: Flt>(interp: &dyn I1<T>, qs: &[f64], ep: usize, lanes: usize, tr
                 }
                 _ => (vec![nq], QDim::Dyn),
             };
-            // the memory layout of the query array is varied as a deterministic function of its content
+            // the memory layout of the query array and the order of the points in the batch (as generated, ascending,
+            // descending) are varied as a deterministic function of its content
             let hq = qs.iter().fold(0x77u64, |h, q| crate::common::splitmix(h ^ q.to_bits()));
+            let mut order: Vec<usize> = (0..nq).collect();
+            match crate::common::splitmix(hq ^ 0x50_27ED) % 6 {
+                0 | 1 => order.sort_by(|&a, &b| qs[a].partial_cmp(&qs[b]).unwrap_or(std::cmp::Ordering::Equal)),
+                2 => order.sort_by(|&a, &b| qs[b].partial_cmp(&qs[a]).unwrap_or(std::cmp::Ordering::Equal)),
+                _ => {}
+            }
+            let qt: Vec<T> = order.iter().map(|&k| qt[k]).collect();
             let qa = crate::layout::realise(ndarray::ArrayD::from_shape_vec(ndarray::IxDyn(&qshape), qt).unwrap(), crate::layout::lay_from_hash(hq), T::of(-4.0e4));
             match interp.t_array(qa.view(), qd).unwrap() {
                 Ok(Arr { shape, v }) => {
@@ -123,8 +131,9 @@ pub fn eval1<T: Flt>(interp: &dyn I1<T>, qs: &[f64], ep: usize, lanes: usize, tr
                     if shape != want {
                         return Err(Fail::new("result-shape", format!("interp_array shape {shape:?}, expected {want:?}")));
                     }
-                    for k in 0..nq {
-                        res.push(v[k * lanes..(k + 1) * lanes].to_vec());
+                    res = vec![Vec::new(); nq];
+                    for (pos, &k) in order.iter().enumerate() {
+                        res[k] = v[pos * lanes..(pos + 1) * lanes].to_vec();
                     }
                 }
                 Err(e) => return Err(Fail::new("query-rejected", format!("interp_array -> {e}"))),
